@@ -23,8 +23,12 @@ type c07Out struct {
 }
 
 func c07Run(lib *ast.KnowledgeLibrary, kbName, rule string, f0 *Fact) (c07Out, bool) {
+	return c07RunVer(lib, kbName, "1", rule, f0)
+}
+
+func c07RunVer(lib *ast.KnowledgeLibrary, kbName, ver, rule string, f0 *Fact) (c07Out, bool) {
 	var out c07Out
-	kb, err := lib.NewKnowledgeBaseInstance(kbName, "1")
+	kb, err := lib.NewKnowledgeBaseInstance(kbName, ver)
 	if err != nil {
 		return out, false
 	}
